@@ -3,7 +3,7 @@ from pyvc.verify import Post, Case, Equiv, NativeFacts
 from contracts import common, C02, C12
 
 PROPERTY = 'C14'
-REF_MODULES = ['ref_t', 'ref_mut', 'h_path']
+REF_MODULES = ['ref_t', 'ref_mut', 'h_path', 'ref_extra', 'ref_core']
 
 
 def config(cfg):
@@ -41,6 +41,8 @@ def contracts():
         ("'a.**.*'", "Path.from_text('a.**.*')", lambda f: ops_of('a.**.*')[1:] == ('P', 'a', 'X', None, 'x', None)),
         ("'a*'", "a segment that merely contains a star is a plain segment", lambda f: ops_of('a*.b')[1:] == ('P', 'a*', 'P', 'b')),
     ], func='core.Path.from_text'))
+    from contracts import extra
+    cs += common.shared(extra, ['core.Path.from_text'])
     return cs
 
 
